@@ -7,6 +7,7 @@ the code by the correspondence harness tools/harness/c10.py).  Specification: `S
 -/
 import SkNet.Lemmas.Path
 import SkNet.Lemmas.Route
+import SkNet.Lemmas.SpDag
 
 namespace SkNet.C10
 open SkNet SkNet.Path
@@ -724,5 +725,64 @@ theorem breadthFirstSearch_exact (n : Nat) (edge : Nat → Nat → Bool) (s : Na
 /-- the model's own `argsort` is a sorting permutation (so the theorem above is not vacuous) -/
 example : SortingPerm [2, -1, 0, -1] (argsort [2, -1, 0, -1]) :=
   ⟨by decide, by decide⟩
+
+/-! ## the shortest-path DAG as a graph of its own -/
+
+/-- **spDag_preserves_dist**. The shortest-path DAG has the hop distances of the graph it was taken from:
+for every node and every `d`, `d` is the hop distance from the sources in the DAG iff it is in the graph
+(in particular the same nodes are reachable). -/
+theorem spDag_preserves_dist {n : Nat} {edge : Nat → Nat → Bool} {src : Nat → Bool} {ps : List (Nat × Nat)}
+    (h : IsSpDag n edge src ps) (v d : Nat) :
+    IsDist n (pairEdge ps) src v d ↔ IsDist n edge src v d := by
+  constructor
+  · intro hd
+    have hw := spDag_walk_sub h hd.1
+    obtain ⟨e, hle, he⟩ := isDist_of_walk d hw
+    have hwe := spDag_covers h e v he
+    by_cases heq : e = d
+    · exact heq ▸ he
+    · exact absurd hwe (hd.2 e (by omega))
+  · intro hd
+    exact ⟨spDag_covers h d v hd, fun d' hlt hw' => hd.2 d' hlt (spDag_walk_sub h hw')⟩
+
+/-- **spDag_acyclic**. The shortest-path DAG is a DAG: no walk of one or more of its edges returns to its
+starting node. -/
+theorem spDag_acyclic {n : Nat} {edge : Nat → Nat → Bool} {src : Nat → Bool} {ps : List (Nat × Nat)}
+    (h : IsSpDag n edge src ps) (a k : Nat) : ¬ Walk n (pairEdge ps) (fun x => x == a) (k+1) a := by
+  intro hw
+  obtain ⟨d, hd1, hd2⟩ := spDag_walk_dist h hw
+  have := isDist_unique hd1 hd2
+  omega
+
+/-- **getShortestPath_preserves_dist**: `get_shortest_path`, end to end, for every accepted argument
+combination: the returned graph has exactly the hop distances (from the routed sources) of the routed graph and
+contains no cycle. -/
+theorem getShortestPath_preserves_dist (nRow0 nCol0 : Nat) (edge0 : Nat → Nat → Bool) (a : PathArgs)
+    (hv : ¬ (routeSpec nRow0 nCol0 a.toDist).ValueError a.toDist)
+    (hi : ¬ (routeSpec nRow0 nCol0 a.toDist).IndexError) :
+    ∃ ps, getShortestPath nRow0 nCol0 edge0 a = .ok (some ((routeSpec nRow0 nCol0 a.toDist).nNodes, ps)) ∧
+      (∀ v d, IsDist (routeSpec nRow0 nCol0 a.toDist).nNodes (pairEdge ps)
+                (routeSpec nRow0 nCol0 a.toDist).isSource v d ↔
+              IsDist (routeSpec nRow0 nCol0 a.toDist).nNodes
+                (if (routeSpec nRow0 nCol0 a.toDist).bipartite then blockEdge nRow0 edge0 else edge0)
+                (routeSpec nRow0 nCol0 a.toDist).isSource v d) ∧
+      (∀ s k, ¬ Walk (routeSpec nRow0 nCol0 a.toDist).nNodes (pairEdge ps) (fun x => x == s) (k+1) s) := by
+  obtain ⟨ps, hps, hiff⟩ := getShortestPath_exact nRow0 nCol0 edge0 a hv hi
+  exact ⟨ps, hps, fun v d => spDag_preserves_dist hiff v d, fun s k => spDag_acyclic hiff s k⟩
+
+/-- **getDag_source_preserves_dist**: `get_dag(adjacency, source)` (no `order`) returns a graph with exactly the hop
+distances from the sources of the input, and without a cycle. -/
+theorem getDag_source_preserves_dist (n : Nat) (edge : Nat → Nat → Bool) (s : List Nat) (hs : ∀ i ∈ s, i < n) :
+    ∃ ps, getDag n edge (some s) none = .ok (some ps) ∧
+      (∀ v d, IsDist n (pairEdge ps) (fun v => s.contains v) v d ↔ IsDist n edge (fun v => s.contains v) v d) ∧
+      (∀ a k, ¬ Walk n (pairEdge ps) (fun x => x == a) (k+1) a) := by
+  obtain ⟨ps, hps, hiff⟩ := getDag_source_exact n edge s hs
+  exact ⟨ps, hps, fun v d => spDag_preserves_dist hiff v d, fun a k => spDag_acyclic hiff a k⟩
+
+/-- Non-vacuity: on the directed 3-cycle with source 0 the returned graph is the path 0 → 1 → 2; node 2 is at
+hop distance 2 in it (walk `0 → 1 → 2`, no shorter one). -/
+example : (getShortestPath 3 3 (fun i j => j == (i+1) % 3) { source := some [0] }).toOption
+      = some (some (3, [(0, 1), (1, 2)])) ∧
+    pairEdge [(0, 1), (1, 2)] 1 2 = true ∧ pairEdge [(0, 1), (1, 2)] 2 0 = false := by decide
 
 end SkNet.C10
